@@ -35,6 +35,7 @@ pub enum DiagnosticInfoMessage {
     TypeofObjectUnsupportedPropNum,
     TypeofObjectUnsupportedPropComputed,
     TypeofObjectUnsupportedPropBigInt,
+    TypeofValueReferencesItself,
     TypeofObjectUnsupportedSpread,
     TypeofObjectUnsupportedProp,
     TypeofPrivateNameNotSupported,
@@ -459,6 +460,9 @@ impl DiagnosticInfoMessage {
             }
             DiagnosticInfoMessage::TypeofObjectUnsupportedSpread => {
                 "typeof on object unsupported spread".to_string()
+            }
+            DiagnosticInfoMessage::TypeofValueReferencesItself => {
+                "typeof on a value that is initialized with itself".to_string()
             }
             DiagnosticInfoMessage::TypeofObjectUnsupportedPropBigInt => {
                 "typeof on object unsupported prop BigInt".to_string()
